@@ -25,10 +25,10 @@ type pc struct{ P, C bool }
 func (a pc) or(b pc) pc { return pc{a.P || b.P, a.C || b.C} }
 
 type a4Write struct {
-	fn     *ssa.Function
-	instr  ssa.Instruction
-	path   string
-	chain  []string
+	fn    *ssa.Function
+	instr ssa.Instruction
+	path  string
+	chain []string
 }
 
 type a4Summary struct {
